@@ -19,6 +19,7 @@ from .common import Ctx, VERIF
 from . import kalman_shared as ks
 
 DRIVERS = ["C03"]
+EXTRA_PROPS = ['KalmanBridge']   # refinement bridge from the executable QMat model to the matrix-level theorems (audited with this check)
 LEVEL = "proof"
 MANIFEST = {
     "category": "proof",
